@@ -62,6 +62,10 @@ var obligationNameRe = regexp.MustCompile(`^(.*)#ensures:(\d+)(?:\.\d+)?(?:/(.*?
 func tryReplay(cfg runConfig, res *runResult, v *violation) *replayResult {
 	rr := &replayResult{}
 	logf := func(f string, a ...interface{}) { rr.Log = append(rr.Log, fmt.Sprintf(f, a...)) }
+	if am := asmObligationRe.FindStringSubmatch(v.Obligation); am != nil {
+		idx, _ := strconv.Atoi(am[2])
+		return asmReplay(cfg.repo, am[1], idx)
+	}
 	m := obligationNameRe.FindStringSubmatch(v.Obligation)
 	if m == nil {
 		logf("replay is implemented for `ensures` obligations only")
